@@ -4053,4 +4053,329 @@ example : (step exChainCfg (steps exChainCfg (start [])
 
 end Examples
 
+
+/-! ### bucket tables of the keyed limit scopes (round 9): a permit is returned to the limiter it was taken from
+
+`BSt.steps` runs any history of sessions opening / ending transactions and of passing time over an endpoint whose
+`ip` / `source` bucket tables have ANY size and reap interval.  Invariant: per scope and key, the permits out
+(`usersOf`) are exactly the open transactions of that key — so the reap pass inside `BucketSet.take` never drops a
+bucket an open transaction took its permit from, a second transaction of the key shares it, and no release ever
+meets a limiter without a permit out (`panics = 0`). -/
+section Buckets
+
+def keysOf (m : List Bk) : List Nat := m.map (·.key)
+
+theorem usersOf_nil (k : Nat) : usersOf k [] = 0 := rfl
+
+theorem usersOf_cons (k : Nat) (b : Bk) (m : List Bk) :
+    usersOf k (b :: m) = (if b.key = k then b.users else 0) + usersOf k m := by
+  unfold usersOf
+  by_cases h : b.key = k <;> simp [List.filter_cons, h]
+
+theorem usersOf_filter_stale (k reap : Nat) (m : List Bk) :
+    usersOf k (m.filter (fun b => !b.stale reap)) = usersOf k m := by
+  induction m with
+  | nil => rfl
+  | cons b bs ih =>
+    by_cases hs : b.stale reap = true
+    · have hu : b.users = 0 := by
+        simp [Bk.stale] at hs
+        exact hs.1
+      simp [List.filter_cons, hs, usersOf_cons, ih, hu]
+    · simp [List.filter_cons, hs, usersOf_cons, ih]
+
+theorem usersOf_touch (k k' : Nat) (m : List Bk) :
+    usersOf k' (bkTouch k m) = usersOf k' m + (if k' = k then 1 else 0) := by
+  induction m with
+  | nil =>
+    by_cases h : k = k'
+    · subst h; simp [bkTouch, usersOf_cons, usersOf_nil]
+    · have h' : ¬ k' = k := fun e => h e.symm
+      simp [bkTouch, usersOf_cons, usersOf_nil, h, h']
+  | cons b bs ih =>
+    unfold bkTouch
+    by_cases hb : b.key = k
+    · by_cases h : k = k'
+      · subst h; simp [hb, usersOf_cons]; omega
+      · have h' : ¬ k' = k := fun e => h e.symm
+        simp [hb, usersOf_cons, h, h']
+    · simp [hb, usersOf_cons, ih]; omega
+
+theorem keysOf_touch_sub (k x : Nat) (m : List Bk) : x ∈ keysOf (bkTouch k m) → x = k ∨ x ∈ keysOf m := by
+  induction m with
+  | nil => intro h; simp [bkTouch, keysOf] at h; exact Or.inl h
+  | cons b bs ih =>
+    unfold bkTouch
+    by_cases hb : b.key = k
+    · intro h
+      have h' : x ∈ keysOf (b :: bs) := by simpa [hb, keysOf] using h
+      exact Or.inr h'
+    · intro h
+      simp only [hb, if_false, keysOf, List.map_cons, List.mem_cons] at h ⊢
+      rcases h with h | h
+      · exact Or.inr (Or.inl h)
+      · rcases ih h with h2 | h2
+        · exact Or.inl h2
+        · exact Or.inr (Or.inr h2)
+
+theorem nodup_touch (k : Nat) (m : List Bk) (h : (keysOf m).Nodup) : (keysOf (bkTouch k m)).Nodup := by
+  induction m with
+  | nil => simp [bkTouch, keysOf]
+  | cons b bs ih =>
+    have hb0 : b.key ∉ keysOf bs ∧ (keysOf bs).Nodup := by simpa [keysOf, List.nodup_cons] using h
+    unfold bkTouch
+    by_cases hb : b.key = k
+    · simpa [hb, keysOf, List.nodup_cons] using h
+    · simp only [hb, if_false, keysOf, List.map_cons, List.nodup_cons]
+      refine ⟨?_, ih hb0.2⟩
+      intro hm
+      rcases keysOf_touch_sub k b.key bs hm with h2 | h2
+      · exact hb h2
+      · exact hb0.1 h2
+
+theorem keysOf_drop (k : Nat) (m : List Bk) : keysOf (bkDrop k m).1 = keysOf m := by
+  induction m with
+  | nil => rfl
+  | cons b bs ih =>
+    unfold bkDrop
+    by_cases hb : b.key = k
+    · simp [hb, keysOf]
+    · simp only [hb, if_false, keysOf, List.map_cons] at ih ⊢
+      rw [ih]
+
+theorem usersOf_zero_of_not_mem (k : Nat) (m : List Bk) (h : k ∉ keysOf m) : usersOf k m = 0 := by
+  induction m with
+  | nil => rfl
+  | cons b bs ih =>
+    have h2 : ¬ b.key = k ∧ k ∉ keysOf bs := by
+      simp [keysOf] at h
+      exact ⟨fun e => h.1 e.symm, by simpa [keysOf] using h.2⟩
+    simp [usersOf_cons, h2.1, ih h2.2]
+
+theorem drop_spec (k k' : Nat) (m : List Bk) (hn : (keysOf m).Nodup) (h1 : 1 ≤ usersOf k m) :
+    (bkDrop k m).2 = false ∧ usersOf k' (bkDrop k m).1 + (if k' = k then 1 else 0) = usersOf k' m := by
+  induction m with
+  | nil => simp [usersOf_nil] at h1
+  | cons b bs ih =>
+    have hb0 : b.key ∉ keysOf bs ∧ (keysOf bs).Nodup := by simpa [keysOf, List.nodup_cons] using hn
+    unfold bkDrop
+    by_cases hb : b.key = k
+    · have hz : usersOf k bs = 0 := usersOf_zero_of_not_mem k bs (hb ▸ hb0.1)
+      have hu : 1 ≤ b.users := by simpa [usersOf_cons, hb, hz] using h1
+      by_cases h : k = k'
+      · subst h
+        simp [hb, usersOf_cons]
+        omega
+      · have h' : ¬ k' = k := fun e => h e.symm
+        simp [hb, usersOf_cons, h, h']
+        omega
+    · have h1' : 1 ≤ usersOf k bs := by simpa [usersOf_cons, hb] using h1
+      have := ih hb0.2 h1'
+      simp only [hb, if_false, usersOf_cons]
+      refine ⟨this.1, ?_⟩
+      omega
+
+theorem nodup_filter (p : Bk → Bool) (m : List Bk) (h : (keysOf m).Nodup) : (keysOf (m.filter p)).Nodup :=
+  List.Nodup.sublist (List.Sublist.map _ List.filter_sublist) h
+
+/-- the table of a scope agrees with a count of open transactions per key -/
+def TInv (t : BSet) (cnt : Nat → Nat) : Prop := (keysOf t.m).Nodup ∧ (t.on = true → ∀ k, usersOf k t.m = cnt k)
+
+theorem TInv.congr {t : BSet} {c1 c2 : Nat → Nat} (h : TInv t c1) (e : ∀ k, c1 k = c2 k) : TInv t c2 :=
+  ⟨h.1, fun ho k => (h.2 ho k).trans (e k)⟩
+
+theorem take_spec (t : BSet) (k : Nat) (cnt : Nat → Nat) (h : TInv t cnt) :
+    ((t.take k).2 = true → TInv (t.take k).1 (fun k' => cnt k' + (if k' = k then 1 else 0))) ∧
+    ((t.take k).2 = false → TInv (t.take k).1 cnt) ∧ (t.take k).1.on = t.on := by
+  unfold BSet.take
+  by_cases ho : t.on = true
+  · simp only [ho, Bool.not_true, Bool.false_eq_true, if_false]
+    have hm : ∀ m', (m' = t.m ∨ m' = t.m.filter (fun b => !b.stale t.reap)) →
+        (keysOf m').Nodup ∧ ∀ k', usersOf k' m' = cnt k' := by
+      intro m' hm'
+      rcases hm' with e | e
+      · subst e; exact ⟨h.1, h.2 ho⟩
+      · subst e; exact ⟨nodup_filter _ _ h.1, fun k' => (usersOf_filter_stale k' t.reap t.m).trans (h.2 ho k')⟩
+    generalize hmm : (if t.maxB < t.m.length then t.m.filter (fun b => !b.stale t.reap) else t.m) = m'
+    have hm' := hm m' (by rw [← hmm]; split <;> simp)
+    by_cases hf : t.maxB < m'.length
+    · simp [hf, TInv, hm'.1, hm'.2, ho]
+    · simp only [hf, if_false]
+      refine ⟨fun _ => ⟨nodup_touch k m' hm'.1, fun _ k' => ?_⟩, fun hc => by simp at hc, by first | trivial | simp [ho]⟩
+      show usersOf k' (bkTouch k m') = _
+      rw [usersOf_touch, hm'.2]
+  · have ho' : t.on = false := by simpa using ho
+    simp [ho', TInv, h.1]
+
+theorem release_spec (t : BSet) (k : Nat) (cnt : Nat → Nat) (h : TInv t cnt) (h1 : t.on = true → 1 ≤ cnt k) :
+    (t.release k).2 = false ∧ TInv (t.release k).1 (fun k' => cnt k' - (if k' = k then 1 else 0)) ∧
+      (t.release k).1.on = t.on := by
+  unfold BSet.release
+  by_cases ho : t.on = true
+  · simp only [ho, Bool.not_true, Bool.false_eq_true, if_false]
+    have hu : 1 ≤ usersOf k t.m := by rw [h.2 ho k]; exact h1 ho
+    refine ⟨(drop_spec k k t.m h.1 hu).1, ⟨?_, fun _ k' => ?_⟩, by first | trivial | simp [ho]⟩
+    · show (keysOf (bkDrop k t.m).1).Nodup
+      rw [keysOf_drop]; exact h.1
+    · show usersOf k' (bkDrop k t.m).1 = cnt k' - (if k' = k then 1 else 0)
+      have := (drop_spec k k' t.m h.1 hu).2
+      rw [h.2 ho k'] at this
+      omega
+  · have ho' : t.on = false := by simpa using ho
+    simp [ho', TInv, h.1]
+
+theorem advance_spec (t : BSet) (d : Nat) (cnt : Nat → Nat) (h : TInv t cnt) : TInv (t.advance d) cnt := by
+  have hk : keysOf (t.advance d).m = keysOf t.m := by simp [BSet.advance, keysOf, List.map_map, Function.comp_def]
+  have hu : ∀ k, usersOf k (t.advance d).m = usersOf k t.m := by
+    intro k
+    simp only [BSet.advance]
+    induction t.m with
+    | nil => rfl
+    | cons b bs ih => simp [usersOf_cons, ih]
+  exact ⟨by rw [hk]; exact h.1, fun ho k => (hu k).trans (h.2 ho k)⟩
+
+def cntIp (o : List BTx) (k : Nat) : Nat := (o.filter (fun t => t.ip = k)).length
+def cntSrc (o : List BTx) (k : Nat) : Nat := (o.filter (fun t => t.src = k)).length
+
+theorem takeTx_spec (i : Nat) (o : List BTx) (tx : BTx) (rest : List BTx) (h : takeTx i o = some (tx, rest)) :
+    (∀ k, cntIp o k = cntIp rest k + (if k = tx.ip then 1 else 0)) ∧
+    (∀ k, cntSrc o k = cntSrc rest k + (if k = tx.src then 1 else 0)) ∧ o.length = rest.length + 1 := by
+  induction o generalizing rest with
+  | nil => simp [takeTx] at h
+  | cons t ts ih =>
+    unfold takeTx at h
+    by_cases ht : t.id = i
+    · simp [ht] at h
+      obtain ⟨rfl, rfl⟩ := h
+      refine ⟨fun k => ?_, fun k => ?_, rfl⟩
+      · by_cases e : k = t.ip
+        · simp [cntIp, List.filter_cons, e]
+        · have e' : ¬ t.ip = k := fun x => e x.symm
+          simp [cntIp, List.filter_cons, e, e']
+      · by_cases e : k = t.src
+        · simp [cntSrc, List.filter_cons, e]
+        · have e' : ¬ t.src = k := fun x => e x.symm
+          simp [cntSrc, List.filter_cons, e, e']
+    · simp only [ht, if_false] at h
+      cases hr : takeTx i ts with
+      | none => simp [hr] at h
+      | some r =>
+        simp [hr] at h
+        obtain ⟨rfl, rfl⟩ := h
+        have := ih r.2 (by simp [hr])
+        refine ⟨fun k => ?_, fun k => ?_, by simp [this.2.2]⟩
+        · have h1 := this.1 k
+          by_cases e : t.ip = k <;> simp [cntIp, List.filter_cons, e] at h1 ⊢ <;> omega
+        · have h1 := this.2.1 k
+          by_cases e : t.src = k <;> simp [cntSrc, List.filter_cons, e] at h1 ⊢ <;> omega
+
+/-- permits out = transactions open, per scope and key; no release without a permit -/
+structure BInv (s : BSt) : Prop where
+  ip : TInv s.ip (cntIp s.opens)
+  src : TInv s.src (cntSrc s.opens)
+  glob : s.glob = s.opens.length
+  panics : s.panics = 0
+
+theorem cnt_append_ip (o : List BTx) (t : BTx) (k : Nat) : cntIp (o ++ [t]) k = cntIp o k + (if k = t.ip then 1 else 0) := by
+  by_cases e : k = t.ip
+  · simp [cntIp, List.filter_append, List.filter_cons, e]
+  · have e' : ¬ t.ip = k := fun x => e x.symm
+    simp [cntIp, List.filter_append, List.filter_cons, e, e']
+
+theorem cnt_append_src (o : List BTx) (t : BTx) (k : Nat) : cntSrc (o ++ [t]) k = cntSrc o k + (if k = t.src then 1 else 0) := by
+  by_cases e : k = t.src
+  · simp [cntSrc, List.filter_append, List.filter_cons, e]
+  · have e' : ¬ t.src = k := fun x => e x.symm
+    simp [cntSrc, List.filter_append, List.filter_cons, e, e']
+
+theorem BInv_step (s : BSt) (op : BOp) (h : BInv s) : BInv (s.step op).1 := by
+  cases op with
+  | opn i ip src =>
+    simp only [BSt.step]
+    by_cases hc : s.connected i = true
+    · simpa [hc] using h
+    · simp only [hc, Bool.false_eq_true, if_false]
+      have hip := take_spec s.ip ip _ h.ip
+      have hsrc := take_spec s.src src _ h.src
+      unfold BSt.takeMsg
+      by_cases h1 : (s.ip.take ip).2 = true
+      · by_cases h2 : (s.src.take src).2 = true
+        · simp only [h1, h2, Bool.not_true, Bool.false_eq_true, if_false, if_true]
+          exact ⟨(hip.1 h1).congr (fun k => (cnt_append_ip s.opens ⟨i, ip, src⟩ k).symm),
+                 (hsrc.1 h2).congr (fun k => (cnt_append_src s.opens ⟨i, ip, src⟩ k).symm),
+                 by simp [h.glob], h.panics⟩
+        · have h2' : (s.src.take src).2 = false := by simpa using h2
+          have hr := release_spec (s.ip.take ip).1 ip _ (hip.1 h1) (fun _ => by simp)
+          simp only [h1, h2', Bool.not_true, Bool.not_false, Bool.false_eq_true, if_false, if_true]
+          exact ⟨hr.2.1.congr (fun k => by by_cases e : k = ip <;> simp [e]), hsrc.2.1 h2', h.glob,
+                 by simp [hr.1, h.panics]⟩
+      · have h1' : (s.ip.take ip).2 = false := by simpa using h1
+        simp only [h1', Bool.not_false, if_true, Bool.false_eq_true, if_false]
+        exact ⟨hip.2.1 h1', h.src, h.glob, h.panics⟩
+  | cls i data rset =>
+    simp only [BSt.step]
+    cases ht : takeTx i s.opens with
+    | none => exact ⟨h.ip, h.src, h.glob, h.panics⟩
+    | some r =>
+      obtain ⟨tx, rest⟩ := r
+      have hs := takeTx_spec i s.opens tx rest ht
+      have hrip := release_spec s.ip tx.ip _ h.ip (fun _ => by rw [hs.1]; simp)
+      have hrsrc := release_spec s.src tx.src _ h.src (fun _ => by rw [hs.2.1]; simp)
+      have hg : (s.glob == 0) = false := by simp [h.glob, hs.2.2]
+      simp only [BSt.releaseMsg]
+      exact ⟨hrip.2.1.congr (fun k => by rw [hs.1 k]; by_cases e : k = tx.ip <;> simp [e]),
+             hrsrc.2.1.congr (fun k => by rw [hs.2.1 k]; by_cases e : k = tx.src <;> simp [e]),
+             by simp [h.glob, hs.2.2], by simp [hg, hrip.1, hrsrc.1, h.panics]⟩
+  | adv d =>
+    simp only [BSt.step]
+    exact ⟨advance_spec _ d _ h.ip, advance_spec _ d _ h.src, h.glob, h.panics⟩
+
+theorem C03_buckets_invariant (s : BSt) (ops : List BOp) (h : BInv s) : BInv (s.steps ops) := by
+  induction ops generalizing s with
+  | nil => exact h
+  | cons o os ih => exact ih _ (BInv_step s o h)
+
+/-- Any history over bucket tables of any size and reap interval (empty at the start): permits out = open
+transactions per scope and key, and no release ever met a limiter without a permit out. -/
+theorem C03_buckets_hold_open_transactions (hasAll ipOn srcOn : Bool) (maxI reapI maxS reapS : Nat) (ops : List BOp) :
+    let s := ({ hasAll := hasAll, ip := { on := ipOn, maxB := maxI, reap := reapI },
+                src := { on := srcOn, maxB := maxS, reap := reapS } } : BSt).steps ops
+    s.panics = 0 ∧ s.glob = s.opens.length ∧
+    (s.ip.on = true → ∀ k, s.ip.users k = (s.opens.filter (fun t => t.ip = k)).length) ∧
+    (s.src.on = true → ∀ k, s.src.users k = (s.opens.filter (fun t => t.src = k)).length) := by
+  intro s
+  have h : BInv s := C03_buckets_invariant _ ops
+    ⟨⟨by simp [keysOf], fun _ k => rfl⟩, ⟨by simp [keysOf], fun _ k => rfl⟩, rfl, rfl⟩
+  exact ⟨h.panics, h.glob, h.ip.2, h.src.2⟩
+
+/-- the reap pass never drops the bucket an open transaction took its permit from -/
+theorem C03_bucket_of_open_transaction_survives (s : BSt) (ops : List BOp) (h : BInv s) (tx : BTx)
+    (hm : tx ∈ (s.steps ops).opens) (hon : (s.steps ops).ip.on = true) :
+    ∃ b ∈ (s.steps ops).ip.m, b.key = tx.ip ∧ 1 ≤ b.users := by
+  have hi := (C03_buckets_invariant s ops h).ip
+  have h1 : 1 ≤ usersOf tx.ip (s.steps ops).ip.m := by
+    rw [hi.2 hon tx.ip]
+    exact List.length_pos_iff.mpr (List.ne_nil_of_mem (List.mem_filter.mpr ⟨hm, by simp⟩))
+  generalize (s.steps ops).ip.m = m at h1
+  induction m with
+  | nil => simp [usersOf_nil] at h1
+  | cons b bs ih =>
+    by_cases hb : b.key = tx.ip
+    · by_cases hu : 1 ≤ b.users
+      · exact ⟨b, by simp, hb, hu⟩
+      · have : 1 ≤ usersOf tx.ip bs := by simp [usersOf_cons, hb] at h1; omega
+        obtain ⟨b', hb', h2⟩ := ih this
+        exact ⟨b', by simp [hb'], h2⟩
+    · have : 1 ≤ usersOf tx.ip bs := by simpa [usersOf_cons, hb] using h1
+      obtain ⟨b', hb', h2⟩ := ih this
+      exact ⟨b', by simp [hb'], h2⟩
+
+/-- non-vacuity: a holder, a flood over a table of one bucket, time, a reap pass, a second transaction of the
+holder's key: both are counted on the one bucket that survived -/
+example : (({ hasAll := true, ip := { on := true, maxB := 1, reap := 10 }, src := { on := true, maxB := 1, reap := 10 } } : BSt).steps
+    [.opn 0 1 1, .opn 9 7 7, .cls 9 false true, .opn 8 6 6, .adv 15, .opn 7 5 5, .cls 7 false true, .adv 15, .opn 1 1 1]).ip.m
+    = [⟨1, 2, 0⟩] := by decide
+
+end Buckets
+
 end MaddyVerif.C03
